@@ -17,6 +17,7 @@ type FidelityResult struct {
 	Exact                 int `json:"exact"`
 	AsLineSet             int `json:"equal_as_line_multiset"`
 	OrderDependent        int `json:"plain_result_reached_under_another_seeded_order"`
+	EnvironmentDependent  int `json:"environment_dependent"`
 	PlainNondeterministic int `json:"plain_binary_disagrees_with_itself"`
 }
 
@@ -119,6 +120,25 @@ func FidelityGate(env *Env, seed uint64) (*FidelityResult, error) {
 							mu.Lock()
 							if err2 == nil && (r2.Exit != rp.Exit || !bytes.Equal(r2.Stdout, rp.Stdout)) {
 								res.PlainNondeterministic++
+								return
+							}
+						}
+						// a tree whose output depends on the clock, the process id or
+						// the like differs between simulated scenarios too (the seed
+						// moves all of them): that is the tree, not the instrumenter
+						var sims []*Result
+						for k := 0; k < 6; k++ {
+							sk := b.StepOf(uint64(7001 + 20_000_003*k)) // (spread over the simulated day)
+							mu.Unlock()
+							rk, errk := env.Exec(&sk)
+							mu.Lock()
+							if errk == nil {
+								sims = append(sims, rk)
+							}
+						}
+						for _, rk := range sims {
+							if rk.Exit != rs.Exit || !bytes.Equal(rk.Stdout, rs.Stdout) {
+								res.EnvironmentDependent++
 								return
 							}
 						}
